@@ -169,4 +169,15 @@ CHECKS = {
         note=COMMON_NOTE,
         technique="TLA+ RunSem + TLC BFS (BatchIndependent invariant) replayed into Model.Run; trace validation of recorded sample-model runs against Trace_Batch.tla",
         design_ref="DESIGN.md section 6 (C16)"),
+    "C17": dict(
+        text="Model checking of the concurrent design plus conformance in both directions: spec/Interp.tla with two Runs in flight is "
+             "explored by TLC at the granularity of the node life cycle (NoConflict, immutability of shared objects as an action "
+             "property, every Run equals its sequential meaning); the as-is effect summaries yield the racing schedule (anti-vacuity). "
+             "TLC enumerates every node-granular schedule (serialized and overlapped variants) and the harness forces each on real "
+             "goroutines through a blocking spy operator installed in the exported Model.GetOperator field, once normally and once under "
+             "the race detector; free-running goroutines on the sample models are recorded under the race detector and validated by TLC "
+             "against Trace_Conc.tla.",
+        note=COMMON_NOTE + " Memory-level races are observed by the race detector on the executed schedules only; it feeds the verdict as an observation instrument (exit 66 = race).",
+        technique="TLA+ interpreter state machine with concurrent Runs, TLC interleaving enumeration replayed on goroutines via a spy-operator scheduler (also under -race); trace validation of free-running stress",
+        design_ref="DESIGN.md section 6 (C17)"),
 }
